@@ -83,6 +83,7 @@ inductive PV where
   | setter (f : Val → M Unit)            -- `partial(install_symbol, name)`
   | lazy (get : M Val) (set : Val → M Unit)   -- a property whose getter / setter run when `fget()` / `fset(v)` is called
   | list (l : List PV)                   -- what a generator has yielded so far
+  | pchild (m : M NavStep)               -- an element of `node.children` whose handler RETURNS a navigation step closure
 
 abbrev Locals := List (String × PV)
 
@@ -100,6 +101,7 @@ structure Node where
   acceptL : String → Option (M LVal) := fun _ => none        -- assignable-access children
   acceptS : String → M (Out × Bool) := fun _ => pure (.normal, false)   -- statement children; `accept(None)` returns None
   children : List (M (Out × Bool)) := []
+  pchildren : List (M NavStep) := []                         -- children whose handlers return a step closure (NavigationListNode)
   steps : String → List NavStep := fun _ => []
   again : M Out := pure .normal                              -- `while`: the loop once more (Spec: the oracle, one fuel less)
   getAttr : Inst → String → M Val := fun _ _ => fail "getattr"            -- `getattr(<instance>, name)`
@@ -252,6 +254,9 @@ def iCall (C : Ctx) (nd : Node) (L : Locals) : PyCall → M (Except Out PV)
     | .child m => do
       let r ← m
       pure (acceptRes r)
+    | .pchild m => do
+      let s ← m
+      pure (.ok (.step s))
     | _ => fail "accept of a local that is not a node"
   | .fget v =>
     match L.get v with
@@ -440,7 +445,9 @@ mutual
       | .val (.set items) => iLoop (fun i L' => iStmts C nd body (L'.set var (.val (.inst i)))) items L
       | _ => fail "for each over a value that is not an instance set"
     | .forChildren var body, L =>
-      iLoop (fun m L' => iStmts C nd body (L'.set var (.child m))) nd.children L
+      match nd.pchildren with
+      | [] => iLoop (fun m L' => iStmts C nd body (L'.set var (.child m))) nd.children L
+      | ps => iLoop (fun m L' => iStmts C nd body (L'.set var (.pchild m))) ps L
     | .forAccept var child body, L =>
       iLoop (fun s L' => iStmts C nd body (L'.set var (.step s))) (nd.steps child) L
     | .whileCall c body, L => do
